@@ -265,8 +265,12 @@ func (gen *generator) addGlobalEntitiesToModule() {
 // in numeric order.
 func (gen *generator) addAttrGroupDefsToModule() {
 	// 8d. Add IR attribute group definitions to the IR module in numeric order.
-	attrGroupIDs := make([]int64, 0, len(gen.old.attrGroupDefs))
-	for id := range gen.old.attrGroupDefs {
+	//
+	// Note: gen.new.attrGroupDefs also holds the empty attribute group
+	// definitions added for attribute group IDs used but not defined in the
+	// input (see irFuncAttribute).
+	attrGroupIDs := make([]int64, 0, len(gen.new.attrGroupDefs))
+	for id := range gen.new.attrGroupDefs {
 		attrGroupIDs = append(attrGroupIDs, id)
 	}
 	less := func(i, j int) bool {
